@@ -170,9 +170,9 @@ impl<'a> Episode<'a> {
         }
     }
 
-    fn written_mask(&self, slot: usize) -> u64 {
+    fn written_mask(&self, slot: usize) -> crate::Mask {
         let m = self.slots[slot].as_ref().unwrap();
-        let mut mask = 0u64;
+        let mut mask: crate::Mask = 0;
         for (k, f) in m.fields.iter().enumerate() {
             if matches!(f, FState::Val { .. }) {
                 mask |= 1 << k;
@@ -882,7 +882,7 @@ fn run_episode(drv: &mut dyn Drv, meta: &Meta, args: &RunArgs, episode: u64, rep
                 let form = if meta.has_returning_forms { rng.below(4) as u8 } else { rng.below(2) as u8 };
                 let ids: Vec<u64> = tv.plus.iter().map(|_| ep.fresh()).collect();
                 // returned removed fields are observed when they were written
-                let mut mask = 0u64;
+                let mut mask: crate::Mask = 0;
                 for (i, k) in tv.minus.iter().enumerate() {
                     if matches!(src.fields[*k], FState::Val { .. }) {
                         mask |= 1 << i;
@@ -1106,7 +1106,7 @@ fn run_episode(drv: &mut dyn Drv, meta: &Meta, args: &RunArgs, episode: u64, rep
                         let mut mask = ep.written_mask(to);
                         for (kf, f) in src.fields.iter().enumerate() {
                             if *f == FState::Unwritten {
-                                mask &= !(1u64 << kf);
+                                mask &= !((1 as crate::Mask) << kf);
                             }
                         }
                         let out = match ep.exec(Op::ReadAll { slot: to, mask }, report) {
